@@ -386,14 +386,36 @@ func runPointer(l loaded, cfgPath string) (res ptrRes) {
 					probes = append(probes, pq{len(res.Probes) - 1, v})
 					continue
 				}
-				if ci.Common().IsInvoke() || ci.Common().StaticCallee() == nil || isUser(ci.Common().StaticCallee()) {
-					callees, err := state.ResolveCallee(ci, false)
-					if err == nil {
+				if ci.Common().IsInvoke() || ci.Common().StaticCallee() == nil || isUser(ci.Common().StaticCallee()) || isWrapper(ci.Common().StaticCallee()) {
+					// resolution as the dataflow analysis sees it: a resolved synthetic wrapper ($bound, $thunk,
+					// instantiation wrappers) is itself analysed, so the calls inside it are resolved in turn
+					seenW := map[*ssa.Function]bool{}
+					var through func(ci2 ssa.CallInstruction)
+					through = func(ci2 ssa.CallInstruction) {
+						callees, err := state.ResolveCallee(ci2, false)
+						if err != nil {
+							return
+						}
 						for c := range callees {
+							if isWrapper(c) {
+								if seenW[c] {
+									continue
+								}
+								seenW[c] = true
+								for _, wb := range c.Blocks {
+									for _, win := range wb.Instrs {
+										if wci, ok := win.(ssa.CallInstruction); ok {
+											through(wci)
+										}
+									}
+								}
+								continue
+							}
 							_, ln := fnPos(l.prog, c)
 							res.Resolve = append(res.Resolve, edge{pname, sp.Line, ln, c.String()})
 						}
 					}
+					through(ci)
 				}
 			}
 		}
